@@ -167,6 +167,15 @@ fn run_case(ctx: &Ctx, index: u64, rep: &mut Report) {
                     }
                 }
             }
+            if rng.chance(1, 5) {
+                // two lines that are the same text up to letter case, inside and outside literal text
+                let base = 7000 + rng.below(900);
+                let (a, b) = *rng.pick(&[("PRINT \"Hello\"", "print \"HELLO\""), ("DATA abc, Def", "data ABC, dEF"), ("REM Note", "rem NOTE"),
+                    ("A$ = \"x\" : PRINT A$", "a$ = \"X\" : print a$"), ("PRINT \"same\"", "PRINT \"same\"")]);
+                lines.push(format!("{} {}", base, a));
+                lines.push(format!("{} {}", base + 1, b));
+                feats.push("lines-equal-up-to-case");
+            }
             if rng.chance(1, 4) {
                 for i in (1..lines.len()).rev() {
                     let j = rng.usize(i + 1);
